@@ -22,6 +22,7 @@ def loop_plan(prop):
             ctx.mc_replay("cover", "MC_Loop.tla", "MC_Loop_cover.cfg", "fam_loopq.json", props, variants=2, workers=8)
             if prop in ("C08", "C09"):
                 ctx.mc_replay("nest5", "MC_Loop.tla", "MC_Loop_hist.cfg", "fam_nest.json", props, variants=1, consts={"MaxLen": 5})
+                ctx.mc_replay("nestw7", "MC_Loop.tla", "MC_Loop_hist.cfg", "fam_nestw.json", props, variants=1, consts={"MaxLen": 7})
             ctx.trace("sessions", props, sessions=40, calls=25, check_attrs=True, kinds="0,1,2,3,4,5,8",
                       extra=["-nounsafe=false"] if prop in ("C08", "C09") else None)
         else:
@@ -29,6 +30,7 @@ def loop_plan(prop):
             ctx.mc_replay("cover", "MC_Loop.tla", "MC_Loop_cover.cfg", "fam_loop.json", props, variants=3, timeout=3000)
             if prop in ("C08", "C09"):
                 ctx.mc_replay("nest7", "MC_Loop.tla", "MC_Loop_hist.cfg", "fam_nest.json", props, variants=1, consts={"MaxLen": 7}, timeout=3000)
+                ctx.mc_replay("nestw8", "MC_Loop.tla", "MC_Loop_hist.cfg", "fam_nestw.json", props, variants=1, consts={"MaxLen": 8}, timeout=3000)
             ctx.trace("sessions", props, sessions=400, calls=40, timeout=3000, check_attrs=True, kinds="0,1,2,3,4,5,8",
                       extra=["-nounsafe=false"] if prop in ("C08", "C09") else None)
             if prop in ("C01", "C05"):
@@ -78,6 +80,10 @@ def conf_plan(prop, fams, kinds):
         for fam, mq, mt in fams:
             ctx.mc_replay(fam, "MC_Attrs.tla", "MC_Attrs.cfg", "fam_%s.json" % fam, props, variants=1 if prop == "C07" else 2,
                           consts={"MaxAttrs": mq if q else mt}, replaycmd="replayattrs", timeout=3000)
+        if prop == "C20":
+            # the property names UGCPolicy and StrictPolicy explicitly: the shipped-policy family (vocabulary and hostile tokens)
+            ctx.mc_replay("ugc-hist", "MC_Loop.tla", "MC_Loop_hist.cfg", "fam_ugc.json", props, variants=1,
+                          consts={"MaxLen": 2 if q else 3}, timeout=3000)
         ctx.trace("sessions", props, sessions=80 if q else 800, calls=25 if q else 40, kinds=kinds, check_attrs=True, timeout=3000)
         return dict(rule=("TLC checks I07/I20 (BM_Props) on every history of fam_conf up to MaxLen and I07attrs/AnyOf/I20attrs on every "
                           "attribute list of the attribute families; every case is replayed (canonical serialisation for C07) and the "
